@@ -31,6 +31,12 @@ Definition dispatch (kind : string) (args : list string) : string :=
         end
     | _ => BADARGS
     end
+  else if String.eqb kind "m" then
+    (* m Frame: the exported methods and fields of packet.Frame the accessor theorems cover *)
+    match args with
+    | [_] => out3 frame_api "-" "-"
+    | _ => BADARGS
+    end
   else BADARGS.
 
 Definition dispatch_line (l : string) : string :=
